@@ -360,7 +360,7 @@ func diff(a, b string, metadata []jd.Metadata) (string, bool, error) {
 		if err != nil {
 			return "", false, err
 		}
-		if str != "{}" {
+		if len(diff) != 0 {
 			haveDiff = true
 		}
 	default:
@@ -416,7 +416,7 @@ func diffV2(a, b string, options []v2.Option) (string, bool, error) {
 		if err != nil {
 			return "", false, err
 		}
-		if str != "{}" {
+		if len(diff) != 0 {
 			haveDiff = true
 		}
 	default:
